@@ -940,6 +940,15 @@ class ExternalVarsVisitor(_ScopedVisitor):
         ):
             # The module is imported in the body of the function: it is looked up from the root.
             parts = self._imported_modules[parts[0]] + parts[1:]
+        elif (
+            parts is not None
+            and parts[0] not in self._start_mod.__dict__
+            and parts[0] not in self._scope_locals
+            and self._gctx.is_authorized_path(CanonicalPathUtils.from_list(parts))
+        ):
+            # A path into an accepted package that is not a name of the module: the package is imported somewhere
+            # in the body of the function (an import binds its names in the whole function, wherever it stands).
+            pass
         elif parts is not None and not isinstance(
             self._start_mod.__dict__.get(parts[0]), ModuleType
         ):
